@@ -448,13 +448,11 @@ def repeat_rank_oracle(ctx, case, real):
         t1, t2 = o1[key][1], o2[key][1]
         ctx.count("pair-adapters-repeated-checked")
         if t1 == s1 and t2 == s2:
-            # untouched: right unless some rank has a copy of both its adapters (then that pair of adapters had to be found)
+            # untouched: right unless some rank has a copy of both its adapters (`_find_best_match_pair` tries every rank)
             both = [i for i in range(len(rr["a1"])) if rr["a1"][i] in s1 and rr["a2"][i] in s2]
-            first = next((i for i in range(len(rr["a1"])) if rr["a1"][i] in s1), None)
-            # the search takes the best R1 match (first given among equals) and then only the R2 adapter of that rank
-            if first is not None and first in both:
-                ctx.failures.append(Failure("C05/pair-adapters-rank-not-found", "--pair-adapters: both adapters of a rank occur (exact copies) and the R1 adapter "
-                                            "is the first given one that occurs, but the pair is unchanged", case_input(case), dict(pair=key, rank=first), None))
+            if both:
+                ctx.failures.append(Failure("C05/pair-adapters-rank-not-found", "--pair-adapters: both adapters of a rank occur as exact copies, "
+                                            "but the pair is unchanged", case_input(case), dict(pair=key, ranks=both), None))
             continue
         ks = cut_by(s1, t1, rr["a1"]) & cut_by(s2, t2, rr["a2"])
         if ks:
